@@ -12,6 +12,25 @@ SPECIES = ["A", "B_x", "C1"]
 
 def build_args(p):
     """several reactions / rules in one model: the parts' constructor arguments merged in order (shared parameters declared once)"""
+    if p.get("names"):
+        # the same program over other species names (short ones: substrings of longer identifiers and of the reserved words)
+        import re as _re
+        q = dict(p)
+        names = q.pop("names")
+        a = build_args(q)
+
+        def ren(x):
+            if isinstance(x, str):
+                return _re.sub(r"\b(%s)\b" % "|".join(_re.escape(k) for k in names), lambda m_: names[m_.group(1)], x)
+            if isinstance(x, list):
+                return [ren(y) for y in x]
+            if isinstance(x, tuple):
+                return tuple(ren(y) for y in x)
+            if isinstance(x, dict):
+                return {ren(k): ren(v) for k, v in x.items()}
+            return x
+        return dict(species=ren(a["species"]), parameters=a["parameters"], reactions=ren(a["reactions"]), rules=ren(a["rules"]),
+                    initial_condition_dict=ren(a["initial_condition_dict"]))
     if p["kind"] != "multi":
         return _build_one(p)
     out = None
